@@ -138,7 +138,7 @@ pub struct Ctx {
     pub distinct: HashSet<u64>,
     pub distinct_capped: bool,
     pub samples: Vec<Value>,
-    pub known_hits: BTreeMap<String, (u64, String)>,
+    pub known_hits: BTreeMap<String, (u64, String, Value)>,
     pub enumerated: u64,
     nontrivial_flag: bool,
     frozen: bool,
@@ -199,11 +199,11 @@ impl Ctx {
         &mut self,
         verdict: Verdict,
         hash: impl FnOnce() -> u64,
-        sample: impl FnOnce() -> Value,
+        sample: impl Fn() -> Value,
     ) -> Verdict {
         let nt = std::mem::replace(&mut self.nontrivial_flag, false);
         if self.frozen {
-            return self.filter_known(verdict, false);
+            return self.filter_known(verdict, false, || Value::Null);
         }
         self.evaluations += 1;
         match &verdict {
@@ -225,19 +225,18 @@ impl Ctx {
             }
             Verdict::Fail(_) => {}
         }
-        self.filter_known(verdict, true)
+        self.filter_known(verdict, true, sample)
     }
 
-    fn filter_known(&mut self, verdict: Verdict, count: bool) -> Verdict {
+    fn filter_known(&mut self, verdict: Verdict, count: bool, sample: impl Fn() -> Value) -> Verdict {
         if let Verdict::Fail(f) = &verdict {
             if !self.strict {
                 if self.known.lookup(self.property, &f.signature).is_some() {
                     if count {
-                        let e = self
-                            .known_hits
-                            .entry(f.signature.clone())
-                            .or_insert((0, f.message.clone()));
-                        e.0 += 1;
+                        if !self.known_hits.contains_key(&f.signature) {
+                            self.known_hits.insert(f.signature.clone(), (0, f.message.clone(), sample()));
+                        }
+                        self.known_hits.get_mut(&f.signature).unwrap().0 += 1;
                     }
                     return Verdict::Pass;
                 }
@@ -268,8 +267,8 @@ impl Ctx {
                 self.samples.push(s);
             }
         }
-        for (k, (n, m)) in o.known_hits {
-            let e = self.known_hits.entry(k).or_insert((0, m));
+        for (k, (n, m, c)) in o.known_hits {
+            let e = self.known_hits.entry(k).or_insert((0, m, c));
             e.0 += n;
         }
     }
@@ -692,7 +691,7 @@ fn part_evidence(part: &dyn Part, c: &Ctx, exhaustive_part: bool, budget: Budget
         "discarded": c.discards,
         "excluded_by_construction": c.excluded,
         "classes": c.labels.iter().map(|(k, v)| (k.to_string(), json!(v))).collect::<serde_json::Map<_, _>>(),
-        "known_finding_hits": c.known_hits.iter().map(|(k, (n, _))| (k.clone(), json!(n))).collect::<serde_json::Map<_, _>>(),
+        "known_finding_hits": c.known_hits.iter().map(|(k, (n, _, _))| (k.clone(), json!(n))).collect::<serde_json::Map<_, _>>(),
     })
 }
 
@@ -853,7 +852,7 @@ pub fn main_for(lookup: impl Fn(&str) -> Option<Check>) -> ! {
     let nviol = if violation.is_some() { 1 } else { 0 };
     write_evidence(&root, &check, tier, seed, &total, &parts_ev, replayed, start, nviol, all_exhaustive);
 
-    for (sig, (n, msg)) in &total.known_hits {
+    for (sig, (n, msg, _)) in &total.known_hits {
         let what = known.lookup(check.id, sig).unwrap_or("");
         let mut m = msg.replace('\n', " ");
         if m.len() > 300 {
@@ -929,7 +928,8 @@ fn write_evidence(
             "exhaustive": exhaustive,
             "regression_files_replayed": replayed,
             "parts": parts,
-            "known_finding_hits": total.known_hits.iter().map(|(k, (n, _))| (k.clone(), json!(n))).collect::<serde_json::Map<_, _>>(),
+            "known_finding_hits": total.known_hits.iter().map(|(k, (n, _, _))| (k.clone(), json!(n))).collect::<serde_json::Map<_, _>>(),
+            "known_finding_examples": total.known_hits.iter().map(|(k, (_, m, c))| (k.clone(), json!({"message": m, "case": c}))).collect::<serde_json::Map<_, _>>(),
             "workers": WORKERS,
         },
         "assumptions": check.assumptions,
